@@ -1,0 +1,49 @@
+//go:build verif
+// +build verif
+
+package tree
+
+// Verification hooks (build tag "verif"): structural dump / construction of trees.
+// Add-only; not compiled into normal builds.
+
+type VerifNode struct {
+	Name     []byte
+	Self     uint64
+	Total    uint64
+	Children []*VerifNode
+}
+
+func verifDump(n *treeNode) *VerifNode {
+	r := &VerifNode{Name: append([]byte{}, n.Name...), Self: n.Self, Total: n.Total}
+	for _, c := range n.ChildrenNodes {
+		r.Children = append(r.Children, verifDump(c))
+	}
+	return r
+}
+
+// VerifDump returns a deep copy of the tree's structure.
+func (t *Tree) VerifDump() *VerifNode {
+	t.m.RLock()
+	defer t.m.RUnlock()
+	return verifDump(t.root)
+}
+
+func verifBuild(n *VerifNode) *treeNode {
+	r := &treeNode{Name: append([]byte{}, n.Name...), Self: n.Self, Total: n.Total, ChildrenNodes: []*treeNode{}}
+	for _, c := range n.Children {
+		r.ChildrenNodes = append(r.ChildrenNodes, verifBuild(c))
+	}
+	return r
+}
+
+// VerifBuild constructs a tree with exactly the given structure (no normalisation).
+func VerifBuild(n *VerifNode) *Tree {
+	return &Tree{root: verifBuild(n)}
+}
+
+// VerifMinValue exposes the pruning threshold used by Serialize and FlamebearerStruct.
+func (t *Tree) VerifMinValue(maxNodes int) uint64 {
+	t.m.RLock()
+	defer t.m.RUnlock()
+	return t.minValue(maxNodes)
+}
